@@ -320,10 +320,12 @@ theorem erase_succ {f : Nat} (ih : EraseAt f) : EraseAt (f + 1) where
     cases hc : posKw? ts <;> simp only []
     · simp only [ih.expr, Res.bind_map, Res.map_bind, er_fst, er_snd]
       apply Res.bind_congr; intro p; simp [erIS]
-    · ifcases cur ts.tail = .lparen
-      simp only [ih.expr, Res.bind_map, Res.map_bind, er_fst, er_snd]
-      apply Res.bind_congr; intro p
-      ifcases cur p.2 = .rparen
+    · by_cases hc2 : cur ts.tail = .lparen
+      · simp only [hc2, ↓reduceIte, ih.expr, Res.bind_map, Res.map_bind, er_fst, er_snd]
+        apply Res.bind_congr; intro p
+        ifcases cur p.2 = .rparen
+      · simp only [hc2, ↓reduceIte, ih.expr, Res.bind_map, Res.map_bind, er_fst, er_snd]
+        apply Res.bind_congr; intro p; simp [erIS]
   lit := by
     intro ts; simp only [parseLit, parsePLit]
     tkcases cur ts
